@@ -287,6 +287,25 @@ def check_numeric(ctx, case):
         return
     if idx != n or int.from_bytes(as_bytes, 'little') != n or len(as_bytes) != 8:
         raise Discrepancy('numeric.bytes', '%s n=%d: to_bytes=%s __index__=%r' % (form, n, as_bytes.hex(), idx), case)
+    # every serialisation of the integer, in both byte orders and two widths, reads back as n
+    for order in ('little', 'big'):
+        for width in (8, 9):
+            try:
+                b_ = v.to_bytes(width, order)
+                h_ = v.to_hex(width * 2, order)
+            except Exception as e:
+                raise Discrepancy('numeric.bytes.raises', 'to_bytes/to_hex(%d, %r) of n=%d raised %r' % (width, order, n, e),
+                                  case)
+            if len(b_) != width or int.from_bytes(b_, order) != n or h_ != n.to_bytes(width, order).hex():
+                raise Discrepancy('numeric.bytes.%s' % order, '%s n=%d: to_bytes(%d, %r)=%s, to_hex(%d, %r)=%s, the '
+                                  'integer in that byte order is %s' % (form, n, width, order, b_.hex(), width * 2, order,
+                                                                        h_, n.to_bytes(width, order).hex()), case)
+    try:
+        others = (int(v), hex(v), float(v))
+    except Exception as e:
+        raise Discrepancy('numeric.views.raises', 'int()/hex()/float() of Value for n=%d raised %r' % (n, e), case)
+    if others[1] != hex(n):
+        raise Discrepancy('numeric.hex', '%s n=%d: hex(Value)=%s' % (form, n, others[1]), case)
 
 
 # ---- outputs ---------------------------------------------------------------------------------------
